@@ -103,3 +103,31 @@ Definition std_decode := decode Std true.
 (* characters that can appear in any encoder output *)
 Definition is_b64url_char (c : N) : bool :=
   is_alnum c || (c =? 45) || (c =? 95) || (c =? pad).
+
+(* DecodeString with the error ignored (`decoded, _ := base64.RawURLEncoding.DecodeString(s)`):
+   Go returns the bytes of the quanta decoded before the first error.  Unpadded alphabets only. *)
+Fixpoint decode_partial_q (a : alphabet) (l : str) : str :=
+  match l with
+  | [] => []
+  | c0 :: t0 =>
+    match dec_char a c0, t0 with
+    | Some s0, c1 :: t1 =>
+      match dec_char a c1, t1 with
+      | Some s1, [] => [s0 * 4 + s1 / 16]
+      | Some s1, c2 :: t2 =>
+        match dec_char a c2, t2 with
+        | Some s2, [] => [s0 * 4 + s1 / 16; (s1 mod 16) * 16 + s2 / 4]
+        | Some s2, c3 :: t3 =>
+          match dec_char a c3 with
+          | Some s3 => q3 s0 s1 s2 s3 ++ decode_partial_q a t3
+          | None => []
+          end
+        | None, _ => []
+        end
+      | None, _ => []
+      end
+    | _, _ => []
+    end
+  end.
+
+Definition rawurl_decode_partial (l : str) : str := decode_partial_q Url (filter not_crlf l).
